@@ -220,6 +220,32 @@ def run(p, report, tier):
     # ---- list-valued committees are deep-copied (their members' generators are private to the query)
     from . import c05 as _c05
     report.analysed["member_copy_sites"] = _c05.check_member_copies(p, report, "R6.4")
+    # ---- R6.7 a seed is never judged by its truthiness (whole package)
+    report.rule("R6.7", "no seed / random_state value is tested by truthiness anywhere in the package "
+                "(`random_state or x`, `if random_state:`, `if not seed`): the seed 0 is a seed", floor=40)
+    SEEDY = ("random_state", "seed", "random_seed")
+    for m in sorted(p.modules.values(), key=lambda m: m.name):
+        bad = []
+        for n in ast.walk(m.tree):
+            vals = []
+            if isinstance(n, ast.BoolOp):
+                vals = n.values[:-1] if isinstance(n.op, ast.Or) else n.values
+            elif isinstance(n, (ast.If, ast.IfExp, ast.While)):
+                t = n.test
+                while isinstance(t, ast.UnaryOp) and isinstance(t.op, ast.Not):
+                    t = t.operand
+                vals = [t]
+            for v in vals:
+                while isinstance(v, ast.UnaryOp) and isinstance(v.op, ast.Not):
+                    v = v.operand
+                nm = v.id if isinstance(v, ast.Name) else (v.attr if isinstance(v, ast.Attribute) else None)
+                if nm is not None and nm.rstrip("_") in SEEDY:
+                    bad.append(n)
+        if not bad:
+            report.add("R6.7", m.name, "no truthiness test of a seed in module", m.relpath, True, nontrivial=False)
+        for n in bad:
+            report.add("R6.7", m.name, f"`{norm_stmt(n, 60)}`", f"{m.relpath}:{n.lineno}", False,
+                       detail="the seed 0 is falsy: it is treated as 'not given' and the result is no longer reproducible for it")
     # ---- R6.6 every fit starts from the seed again
     report.rule("R6.6", "every fit re-derives random_state_ from the constructor parameter before reading it (a test "
                 "hasattr(self, 'random_state_') being true does not count): a refitted model does not continue from the "
